@@ -147,41 +147,38 @@ func (r *dlRoles) isArm(in ssa.Instruction) bool {
 	if c.Call.IsInvoke() && c.Call.Method.Name() == "Reset" && isFieldLoad(c.Call.Value, r.T, r.timer) {
 		return true
 	}
-	if helperCallee(c) != nil {
-		// a private helper that creates or re-arms the timer: its body is walked, the creating call inside counts
-		return false
-	}
-	if refs := c.Referrers(); refs != nil {
-		for _, rr := range *refs {
-			if st, ok := rr.(*ssa.Store); ok && sameOrigin(st.Val, ssa.Value(c)) && isFieldStore(st, r.T, r.timer) {
-				return true
-			}
-		}
-	}
-	// created inside a helper whose result is stored into the timer field
+	// calls that create the timer, directly or inside helpers whose result ends up in the timer field: the innermost
+	// creating call counts (time.AfterFunc inside afterFunc inside restart); a helper that builds the timer object
+	// itself (the js timer) is the creating call
 	if r.armCalls == nil && r.Set != nil {
 		r.armCalls = map[*ssa.Call]bool{}
-		var expand func(v ssa.Value, d int)
-		expand = func(v ssa.Value, d int) {
+		var expand func(v ssa.Value, d int) int
+		expand = func(v ssa.Value, d int) int {
+			n := 0
 			for _, lf := range phiLeaves(strip(v)) {
 				cl, ok := strip(lf).(*ssa.Call)
 				if !ok {
 					continue
 				}
 				if h := helperCallee(cl); h != nil && d < 4 && h.Signature.Results().Len() == 1 {
+					inner := 0
 					for _, rv := range returnedValues(h, 0) {
-						expand(rv, d+1)
+						inner += expand(rv, d+1)
 					}
+					if inner == 0 {
+						r.armCalls[cl] = true // the helper builds the timer itself
+					}
+					n++
 					continue
 				}
 				r.armCalls[cl] = true
+				n++
 			}
+			return n
 		}
 		instrsOfU(r.Set, func(x ssa.Instruction) {
 			if st, ok := x.(*ssa.Store); ok && isFieldStore(st, r.T, r.timer) {
-				if cl, ok := st.Val.(*ssa.Call); ok && helperCallee(cl) != nil {
-					expand(cl, 0)
-				}
+				expand(st.Val, 0)
 			}
 		})
 	}
